@@ -202,8 +202,10 @@ def random_history(rng):
             case += [1, rng.randrange(nt)]; nt -= 1
         elif r < 0.34:
             case += [2]; nt += 1
-        elif r < 0.52:
+        elif r < 0.46:
             case += [3, rng.randrange(nt), rng.randrange(0, 4)] + ev()
+        elif r < 0.52:
+            case += [9, 8, rng.randrange(nt), rng.randrange(0, 3), rng.randrange(128), 9]     # observe, edit a value in place, observe
         elif r < 0.6:
             case += [4, rng.randrange(nt), rng.randrange(0, 3)]
         elif r < 0.72:
@@ -244,6 +246,10 @@ def run(out):
              [1, 480, 0, 3, 5, 0, 1, 100, 1, 2, 30, 0, 3, 9, 9],                  # a mid-track end_of_track with a delta: observe twice
              [1, 480, 0, 2, 5, 0, PW_BASE + 3, 7, 0, 2, 9, 8, 0, 0, 1, 9, 8, 0, 0, 1, 9],   # a pitch edited from -1 to -2 and back (equal hashes)
              [1, 480, 0, 2, 0, 0, 1, 7, 0, 2, 9, 5, 0, 0, 2 ** 61 - 1, 9, 5, 0, 0, 0, 9]]   # a time edited from 0 to 2**61-1 and back (equal hashes)
+    # a tempo edited in place between two observations (no delta, count or resolution changes), whichever observation came first
+    for pad in range(4):
+        cases.append([1, 480] + [7, 480] * pad + [0, 3, 0, 0, 4, 96, 0, 1, 96, 0, 2, 9, 8, 0, 0, 5, 9, 8, 0, 0, 9, 9])
+        cases.append([1, 480] + [7, 480] * pad + [0, 2, 10, 0, 8, 50, 0, 3, 0, 1, 0, 0, 12, 9, 8, 1, 0, 3, 9])
     cases += [random_history(rng) for _ in range(n)]
     for tag, rec in core.pmap(job, chunk_jobs(cases, 'history', COMP_HIST)):
         core.merge_into(out, rec, tag)
